@@ -14,7 +14,7 @@ import re
 
 S = Sym
 PROPERTY = 'C06'
-PROPS_MODULES = ['C06', 'C06b', 'C06c', 'C01c', 'C06d', 'C06e', 'C06f', 'C06g', 'C06h', 'C06j', 'C06k', 'C18b', 'C01e', 'C06m']
+PROPS_MODULES = ['C06', 'C06b', 'C06c', 'C01c', 'C06d', 'C06e', 'C06f', 'C06g', 'C06h', 'C06j', 'C06k', 'C18b', 'C01e', 'C06m', 'C06n']
 ASSUMPTIONS = ['the printed text is compared with the model printer token by token, numeric tokens by value (Python float formatting of '
                'time bounds is outside the exact model)']
 
